@@ -1386,7 +1386,7 @@ fn build_case(h: &Hist, mode: PMode) -> Result<Built, &'static str> {
 // generator 1: histories, steered by the model
 // ------------------------------------------------------------------------------------------------
 
-const WORDS: [&str; 14] = ["a", "xy", "hello", "Q", "x y", "7", "12", "-3", "B2", "a b c", "0", ".", "W w", "405"];
+const WORDS: [&str; 16] = ["a", "xy", "hello", "Q", "x y", "7", "12", "-3", "B2", "a b c", "0", ".", "W w", "405", "\u{e9}t\u{e9}", "na\u{ef}f \u{fc}"];
 
 /// One text field: a word, possibly empty, possibly with blanks at its edges.
 fn gen_field(t: &mut Tape) -> String {
@@ -1446,6 +1446,10 @@ fn gen_print(t: &mut Tape, h: usize, col: Option<usize>) -> Op {
             Item::N(n) => fmt_num(*n).len(),
         };
         c = c.map(|x| x + len);
+        if matches!(&it, Item::S(s) if !s.is_ascii()) {
+            // the statement says nothing about the width of a character above 127: no comma after it on this line
+            c = None;
+        }
         let room = c.map(|x| x < MAX_COL).unwrap_or(false);
         let sep = if i + 1 < n {
             if room && t.chance(1, 4) { Some(Sep::Comma) } else { Some(Sep::Semi) }
